@@ -37,6 +37,14 @@ class OutsideIndex(Exception):
     pass
 
 
+def _realize(v):
+    try:
+        from crosshair.core import realize
+        return realize(v)
+    except Exception:  # noqa: BLE001   (no CrossHair in this interpreter: the value is concrete anyway)
+        return v
+
+
 class Sum:
     __slots__ = ("tag", "vals")
 
@@ -405,6 +413,9 @@ class Interp:
         raise Unsupported(f"extension op {name}")
 
     def array_op(self, short, op, a):
+        if short in ("get", "set", "borrow", "return") and len(a) >= 2:
+            a = list(a)
+            a[1] = _realize(a[1])        # one path per index value instead of symbolic slicing (an index has at most n + 2 interesting values)
         if short == "new_array":
             return [Arr(a)]
         if short == "get":
